@@ -21,7 +21,7 @@ IMPORTS = "From Coq Require Import String.\nFrom PV Require Import Lib.Common Mo
 SHARD = 40
 LEVEL_TEXT = ("Coq theorems over an exact-rational executable model of G_E_Phenotyping.phenotype (draw consumption order, env-major "
               "block concatenation, label columns incl. the generated TaxonNN/TraitN names), set_h2/set_H2 and "
-              "MeanPhenotypicBreedingValue.estimate (sorted group-by-mean, last-wins hash join onto the genotype order, missing rows): "
+              "MeanPhenotypicBreedingValue.estimate (sorted group-by-mean with null group labels kept as keys, last-wins hash join onto the genotype order, missing rows): "
               "one record per (env, rep, taxon) cell with that taxon's labels; zero noise gives the true genotypic value; heritability "
               "calibration var/(var+var_err) = h2; group means are arithmetic means; the estimate is invariant under every permutation "
               "of the phenotype rows; output aligned to the genotype order with absent taxa missing. The model is tied to the code "
@@ -43,7 +43,8 @@ TRUSTED = ["pandas DataFrame.groupby(sort=True, dropna=True).agg(mean) (modelled
            "DenseBreedingValueMatrix.from_numpy/unscale round trip (property C15) within 2^-30 relative",
            "DenseAdditiveLinearGenomicModel.gegv/gebv/var_A/var_G are modelled as Z@u_a + (beta[0] + mean-weighted other fixed effects) and population variance"]
 ASSUMPTIONS = ["trait values finite; taxa labels printable ASCII strings; variances are squares of dyadic standard deviations in scripted cases",
-               "alignment theorem needs: no group column, or no taxon with records in two groups and no null groups (otherwise finding C14-join-ignores-group / C14-null-group-drops-records)",
+               "alignment theorem needs: no group column, or no taxon with records under two group labels, a null label counting as one (otherwise finding C14-join-ignores-group)",
+               "without a genotype matrix a null group label is exported by to_numpy(dtype=int) as INT64_MIN (numpy NaN->int64 cast on x86-64, RuntimeWarning only): modelled as such",
                "all nenv environments are simulated only if nenv was not raised after nrep was stored (otherwise finding C14-stale-nrep-after-nenv)"]
 
 LABELS = ["b", "a", "c", "Z", "aa", "a1", "B", "ab", "T10", "T9", "x_y", "k"]
@@ -385,6 +386,8 @@ def _kept(case, rows):
     return keep
 
 # ------------------------------------------------------------------ predicate
+def _ksort(k): return (k[0], k[1] is None, 0 if k[1] is None else k[1])
+
 def _pred_est(case, out, bad):
     eo = out["est"]; est = case["est"]
     rows, tnames = _base_table(case, out)
@@ -420,12 +423,13 @@ def _pred_est(case, out, bad):
                     if not _close(_fh(got[jj]), want[jj]):
                         bad.append("bvjoin %s: value of taxon %r (row %d) trait %d is not the mean of its %d records" % (name, x, i, jj, len(sel))); break
         else:
-            if est["grp"]: keys = sorted(set((r[0], r[1]) for r in sub if r[1] is not None))
+            # a null group label is a group of its own (sorted after the integer labels); no record may be lost
+            if est["grp"]: keys = sorted(set((r[0], r[1]) for r in sub), key=_ksort)
             else: keys = sorted(set((r[0],) for r in sub))
-            dropped = est["grp"] and any(r[1] is None for r in sub)
-            if dropped: bad.append("bvnull %s: records with a null group are silently excluded" % name)
             if o["taxa"] != [k[0] for k in keys]: bad.append("%s: group keys are not the sorted distinct taxa" % name); continue
-            if est["grp"] and o["taxa_grp"] != [k[1] for k in keys]: bad.append("%s: taxa_grp of the groups" % name)
+            if est["grp"] and (o["taxa_grp"] is None or len(o["taxa_grp"]) != len(keys) or
+                               any(k[1] is not None and g != k[1] for k, g in zip(keys, o["taxa_grp"]))):
+                bad.append("%s: taxa_grp of the groups" % name)
             if not est["grp"] and o["taxa_grp"] is not None: bad.append("%s: taxa_grp present without a group column" % name)
             for i, k in enumerate(keys):
                 sel = [r for r in sub if (r[0], r[1])[:len(k)] == k]
@@ -563,16 +567,14 @@ def _dedupe(bad):
 
 # ------------------------------------------------------------------ known findings
 def _defect_semantics(case, out):
-    """re-computation of estimate() WITH the two known defects (null-group records dropped; join by label only, last
-    group wins): used only to recognise a failure as exactly that pattern"""
+    """re-computation of estimate() WITH the known defect (join by label only, the last group -- null label last -- wins):
+    used only to recognise a failure as exactly that pattern"""
     rows, tnames = _base_table(case, out)
     sub = [rows[i] for i in _kept(case, rows)]
     est = case["est"]; tr = est["traits"]; tix = [tr] if isinstance(tr, int) else list(tr)
-    if not est["grp"]: return None
-    sub = [r for r in sub if r[1] is not None]
-    keys = sorted(set((r[0], r[1]) for r in sub))
+    if not est["grp"] or est["gt"] is None: return None
+    keys = sorted(set((r[0], r[1]) for r in sub), key=_ksort)
     means = {k: [sum(r[2][j] for r in sub if (r[0], r[1]) == k) / sum(1 for r in sub if (r[0], r[1]) == k) for j in tix] for k in keys}
-    if est["gt"] is None: return [means[k] for k in keys]
     last = {}
     for k in keys: last[k[0]] = k
     return [means[last[x]] if x in last else None for x in est["gt"]["taxa"]]
@@ -586,17 +588,14 @@ def classify(case, out, clauses):
         n = len(case["geno"][0])
         if out["df"]["nrow"] != n * case["nrep"] * case["nenv"] or sorted(set(out["df"]["env"])) != list(range(1, case["nenv"] + 1)): return None
         return "C14-stale-nrep-after-nenv"
-    if not all(c.startswith("bvjoin ") or c.startswith("bvnull ") for c in clauses): return None
+    if not all(c.startswith("bvjoin ") for c in clauses): return None
     est = case["est"]
-    if not est["grp"] or (est["gt"] is not None and est["gt"]["taxa"] is None) or est.get("missing_col"): return None
+    if not est["grp"] or est["gt"] is None or est["gt"]["taxa"] is None or est.get("missing_col"): return None
     rows, _ = _base_table(case, out)
     sub = [rows[i] for i in _kept(case, rows)]
-    has_null = any(r[1] is None for r in sub)
     groups = {}
-    for r in sub:
-        if r[1] is not None: groups.setdefault(r[0], set()).add(r[1])
-    multi = any(len(g) > 1 for g in groups.values())
-    if not (has_null or multi): return None
+    for r in sub: groups.setdefault(r[0], set()).add(r[1])          # a null label counts as a label of its own
+    if not any(len(g) > 1 for g in groups.values()): return None
     want = _defect_semantics(case, out)
     for name in ("bv", "bv_perm"):
         o = out["est"][name]
@@ -605,10 +604,7 @@ def classify(case, out, clauses):
             if w is None:
                 if any(v is not None for v in got): return None
             elif any(v is None or not _close(_fh(v), x) for v, x in zip(got, w)): return None
-    if any(c.startswith("bvjoin ") for c in clauses) and multi and est["gt"] is not None and not has_null: return "C14-join-ignores-group"
-    if has_null and not multi: return "C14-null-group-drops-records"
-    if has_null and multi: return "C14-join-ignores-group" if est["gt"] is not None else "C14-null-group-drops-records"
-    return None
+    return "C14-join-ignores-group"
 
 # ------------------------------------------------------------------ evidence helpers
 def nontrivial(case, out):
